@@ -476,6 +476,10 @@ class ExcelCompiler:
             for child_cell in self.dep_graph.successors(cell):
                 if child_cell.value is not None:
                     self._reset(child_cell)
+                elif isinstance(child_cell, _CellRange):
+                    # a range may not have been evaluated while formulas that
+                    # intersect it (and so read only one of its cells) were
+                    self._reset(child_cell, force=True)
 
     def value_tree_str(self, address, indent=0):
         iterative_eval_tracker.inc_iteration_number()
